@@ -260,6 +260,7 @@ pub fn run_one(opts: RunOpts) -> RunResult {
         stall_pct,
         cooperative: false,
         aged: None,
+        aged_hashes: vec![],
         same_process_probes: 0,
         part_weight: *rng.pick(&[25u64, 25, 3]),
         fault_weight: *rng.pick(&[2u64, 2, 12]),
@@ -322,9 +323,11 @@ pub fn run_one(opts: RunOpts) -> RunResult {
                 if let Some(a) = w.cfg.age_pending_secs {
                     if w.age_pending_records(a) {
                         w.aged = Some(a);
+                        w.aged_hashes = (0..w.hashes.len()).map(|i| (i, a)).collect();
                         w.ev(|| format!("AGED stored pending records by {a}s"));
                     } else {
                         w.aged = None;
+                        w.aged_hashes.clear();
                     }
                 }
                 w.lifetime += 1;
@@ -1023,6 +1026,12 @@ fn apply_call(shared: &Shared, id: u64, fused: bool) {
     };
     let method = w.calls[idx].method.clone();
     let params = w.calls[idx].params.clone();
+    if method == "datastore" {
+        // the stored record is being rewritten: a fabricated age no longer describes it
+        if let Some(i) = w.calls[idx].hidx {
+            w.aged_hashes.retain(|(h, _)| *h != i);
+        }
+    }
     let res: Option<crate::node::RpcResult> = match method.as_str() {
         "datastore" => Some(w.node.datastore(&params)),
         "listdatastore" => Some(w.node.listdatastore(&params)),
@@ -1099,6 +1108,9 @@ fn fault_call(shared: &Shared, id: u64, kind: &'static str) {
     let err = match kind {
         "reject" => RpcErr::new(-1, "injected: write rejected"),
         "lost-reply" => {
+            if let Some(i) = w.calls[idx].hidx {
+                w.aged_hashes.retain(|(h, _)| *h != i);
+            }
             let _ = w.node.datastore(&params);
             RpcErr::transport("injected: no response from lightningd")
         }
